@@ -447,6 +447,9 @@ def run(ctx):
     import r_layout
     reps.append(r_layout.rule_waste(ctx, "C07"))
     reps.append(r_layout.rule_trial_shape(ctx, "C07"))
+    # the comment tests also keep `--[[ stylua: ignore ]]` statements away from paths that assert FormatNode::Normal
+    import r_guard
+    reps.append(r_guard.rule_guard(ctx, "C07"))
     # the stated belief of block::prefix_remove_leading_newlines (`other => unreachable!("got non-parentheses expression
     # as prefix")`): a Prefix::Expression leaves the formatter parenthesised on every layout path
     import r_paren
